@@ -17,8 +17,13 @@ Vocabulary (defined in `Lemmas/Async.lean`):
 * `Encloses m a b`       boundary `a` is `b` or on `b`'s parent chain (closure of `Boundary.parent`);
 * `Struct m`             parents have smaller indices; a boundary's `counterScope` is the parent of
                          its `innerScope`; the parent boundary has a smaller index and its inner scope
-                         is an ancestor-or-equal of the child's counter scope; a task's scope exists and
-                         its boundary's inner scope is an ancestor-or-equal of the task's scope;
+                         is an ancestor-or-equal of the child's counter scope; a task's scope and its
+                         boundary exist; the root scope exists; the recorded owner of a resource exists;
+* `Local m`              every task is spawned in place: its boundary's inner scope is an
+                         ancestor-or-equal of the task's scope. True of the tasks created by `Item.task`
+                         and `Item.resource`; NOT of the guard of a read (`Item.use n`), which is held by
+                         the resource and is a task of the scope that owns resource `n` (`M.ownerOf`);
+* `Items.noUse items`    the build description contains no `Item.use`;
 * `Dyn m`                a live scope has a live parent; live counter = number of held guards; a
                          pending task lives in a live scope;
 * `Covers m ts`          `ts` completes every await point of every pending task, each of which has ≥ 1.
@@ -36,15 +41,45 @@ theorem C13_reach_invariants {m : M} (hr : Reach m) : Struct m ∧ Dyn m ∧ NoA
 of tasks are those of the build -/
 theorem C13_shape_constant (m : M) (es : List Ev) : SameSkel m (run m es) := sameSkel_run m es
 
-/-- when a task's scope is alive, its boundary exists and both the boundary's inner scope and its
-counter are alive -/
+/-- the scope that owns a resource exists, in every reachable state -/
+theorem C13_owner_exists {m : M} (hr : Reach m) (n : Nat) : m.ownerOf n < m.scopes.length :=
+  hr.good.struct.ownerOf_lt n
+
+/-- events never change the recorded owners -/
+theorem C13_owner_constant (m : M) (es : List Ev) : (run m es).resOwner = m.resOwner := (sameSkel_run m es).res
+
+/-- The boundary of a task exists. When the task was spawned in place (the boundary's inner scope is the
+task's scope or an ancestor of it) and its scope is alive, both the boundary's inner scope and its counter
+are alive. (Without the first hypothesis this fails for the guard of a read, which lives in the scope that
+owns the resource: see the example at the end. The guard then outlives the counter; D5.) -/
 theorem C13_task_counter_alive {m : M} (hr : Reach m) {t b : Nat} {tk : Task}
-    (ht : m.tasks[t]? = some tk) (hb : tk.boundary = some b) (hal : scopeAlive m tk.scope = true) :
+    (ht : m.tasks[t]? = some tk) (hb : tk.boundary = some b) :
+    ∃ bd, m.boundaries[b]? = some bd ∧
+      (Anc m bd.innerScope tk.scope → scopeAlive m tk.scope = true →
+        scopeAlive m bd.innerScope = true ∧ scopeAlive m bd.counterScope = true) := by
+  obtain ⟨bd, hbd⟩ := hr.good.struct.task_bnd t tk b ht hb
+  refine ⟨bd, hbd, fun hanc hal => ?_⟩
+  have h1 := hanc.alive hr.good.dyn hal
+  exact ⟨h1, hr.good.counter_alive hbd h1⟩
+
+/-- every task of a build without reads is spawned in place, in every state of every run -/
+theorem C13_local_noUse (items : List Item) (hn : Items.noUse items = true) (es : List Ev) :
+    Local (run (buildItems M.init 0 none items) es) :=
+  (local_build items hn).of_sameSkel (sameSkel_run _ es)
+
+/-- … so for builds without reads: when a task's scope is alive, its boundary exists and both the
+boundary's inner scope and its counter are alive -/
+theorem C13_task_counter_alive_noUse (items : List Item) (hn : Items.noUse items = true) (es : List Ev)
+    {t b : Nat} {tk : Task} :
+    let m := run (buildItems M.init 0 none items) es
+    m.tasks[t]? = some tk → tk.boundary = some b → scopeAlive m tk.scope = true →
     ∃ bd, m.boundaries[b]? = some bd ∧ scopeAlive m bd.innerScope = true ∧
       scopeAlive m bd.counterScope = true := by
-  obtain ⟨bd, hbd, hanc⟩ := hr.good.struct.task_bnd t tk b ht hb
-  have h1 := hanc.alive hr.good.dyn hal
-  exact ⟨bd, hbd, h1, hr.good.counter_alive hbd h1⟩
+  intro m ht hb hal
+  obtain ⟨bd, hbd, hanc⟩ := C13_local_noUse items hn es t tk b ht hb
+  obtain ⟨bd', hbd', h⟩ := C13_task_counter_alive ((Reach.build items).run es) ht hb
+  rw [hbd] at hbd'; cases hbd'
+  exact ⟨bd, hbd, h hanc hal⟩
 
 /-! ### the counter -/
 
@@ -208,5 +243,16 @@ example : Encloses c13M 0 1 := .up (bd := ⟨some 0, 1, 2, 1⟩) rfl rfl .refl
 and keeps its boundary loading for ever. This is why `Covers` asks for `1 ≤ awaits`. -/
 example : let m := run (buildItems M.init 0 none [.boundary [.task 0]]) [.complete 0, .complete 0]
     isLoading m 2 0 = true ∧ (m.tasks.map (·.status)) = [.pending] := by decide
+/-- The guard of a read lives in the scope that owns the resource (here: the root scope, resource 0 was
+not created by an item), not below the boundary it is registered at: `S1 { B0 { use 0 } }`, dispose `S1`:
+the task (scope 0) is alive and pending, its boundary's inner scope 2 and counter scope 1 are dead. -/
+example : let m := run (buildItems M.init 0 none [.scope [.boundary [.use 0]]]) [.dispose 1]
+    (m.tasks.map fun tk => (tk.scope, tk.boundary, tk.status)) = [(0, some 0, .pending)] ∧
+    (m.boundaries.map fun bd => (bd.counterScope, bd.innerScope)) = [(1, 2)] ∧
+    scopeAlive m 0 = true ∧ scopeAlive m 1 = false ∧ scopeAlive m 2 = false ∧ globalLoading m = false := by decide
+-- resources and reads count like tasks: `B0 { resource 0, use 0 }`
+example : let m := buildItems M.init 0 none [.boundary [.resource 0, .use 0]]
+    (m.boundaries.map (·.remaining)) = [2] ∧ unfinishedAt m 0 = 2 ∧ m.resOwner = [(0, 1)] ∧ m.ownerOf 0 = 1 ∧
+    isLoading (run m [.complete 0]) 2 0 = true ∧ isLoading (run m [.complete 0, .complete 1]) 2 0 = false := by decide
 
 end SycVerif.Async
